@@ -71,10 +71,13 @@ def conservation(viol, quick):
         cases += [("Jenkins", "SOVirial", {}, 2.0, {}), ("ST", "SOCritical", {"overdensity": 500}, 0.5, {"Om0": 0.35}), ("Crocce", "SOMean", {"overdensity": 200}, 3.0, {"H0": 75.0})]
     n = 0
     for fit, mdl, mp, z, cp in cases:
-        kw = dict(transfer_model="EH", hmf_model=fit, Mmin=9.0, Mmax=16.5, dlog10m=0.05, z=z, cosmo_params=dict(cp), lnk_min=-12.0, lnk_max=10.0, dlnk=0.1)
+        kw = dict(transfer_model="EH", hmf_model=fit, Mmin=10.0, Mmax=15.5, dlog10m=0.05, z=z, cosmo_params=dict(cp), lnk_min=-12.0, lnk_max=10.0, dlnk=0.1)
         try:
             a = MassFunction(mdef_model=mdl, mdef_params=dict(mp), disable_mass_conversion=False, **kw)
+            # the reference in the fit's own definition is tabulated on a wider range, so that the outermost intervals of the converted
+            # function (which the code fills by extrapolating its splines) have a reference too
             b = MassFunction(disable_mass_conversion=True, **kw)
+            bw = MassFunction(disable_mass_conversion=True, **dict(kw, Mmin=9.0, Mmax=16.5))
             meas = a.hmf.measured_mass_definition
             m = 10 ** np.linspace(11, 14, 7)
             mnew = meas.change_definition(m, a.mdef, profile=NFW(meas, z, a.cosmo), z=z, cosmo=a.cosmo)[0]
@@ -83,6 +86,38 @@ def conservation(viol, quick):
             viol("dndm-conversion/raises", f"MassFunction.dndm with mass conversion enabled raises {type(e).__name__}: {e} ({fit} -> {mdl}, z={z})", {"fit": fit, "mdef": mdl, "z": z, "cosmo_params": cp})
             continue
         n += 1
+        # interval by interval over the whole range on which both tables are defined, including the outermost intervals
+        try:
+            from scipy.interpolate import InterpolatedUnivariateSpline as S_
+            okw = np.isfinite(bw.dndm) & (bw.dndm > 0)
+            bwm, bwd = bw.m[okw], bw.dndm[okw]
+            lo_m, hi_m = bwm[0], bwm[-1]
+            edges = 10 ** np.linspace(np.log10(lo_m), np.log10(hi_m), 151)
+            enew = meas.change_definition(edges, a.mdef, profile=NFW(meas, z, a.cosmo), z=z, cosmo=a.cosmo)[0]
+            ok_ = (enew >= a.m[0]) & (enew <= a.m[-1])
+            s0_, s1_ = S_(np.log(bwm), np.log(bwd), k=3), S_(np.log(a.m), np.log(a.dndm), k=3)
+            worst, where, cnt = 0.0, None, []
+            for i_ in range(len(edges) - 1):
+                if not (ok_[i_] and ok_[i_ + 1]):
+                    continue
+                l0 = np.linspace(np.log(edges[i_]), np.log(edges[i_ + 1]), 200); l1 = np.linspace(np.log(enew[i_]), np.log(enew[i_ + 1]), 200)
+                cnt.append((np.trapezoid(np.exp(s0_(l0) + l0), l0), np.trapezoid(np.exp(s1_(l1) + l1), l1), i_))
+            top = max((c_[0] for c_ in cnt), default=0.0)
+            # the converted table is interpolated where m' lies between the images of the first and last tabulated mass, and
+            # extrapolated (cubic in log-log: 15 % off at the very edge on the unchanged tree) in the outermost intervals
+            g_lo, g_hi = meas.change_definition(np.array([a.m[0], a.m[-1]]), a.mdef, profile=NFW(meas, z, a.cosmo), z=z, cosmo=a.cosmo)[0]
+            for i0, i1, i_ in cnt:
+                if not i0 > 1e-9 * top:
+                    continue           # far exponential tail: no haloes to conserve
+                interior = enew[i_] >= max(g_lo, a.m[0]) and enew[i_ + 1] <= min(g_hi, a.m[-1])
+                dev_ = abs(i1 / i0 - 1)
+                if dev_ > (0.05 if interior else 0.35) and dev_ > worst:
+                    worst, where = dev_, (float(edges[i_]), float(edges[i_ + 1]))
+            if where is not None:
+                viol("dndm-conversion/interval-number-not-conserved", f"{fit} converted from {meas} to {a.mdef} at z={z}, cosmo_params={cp}: the number of haloes in the mass interval {where} changes by {worst:.3g} under the conversion",
+                     {"fit": fit, "mdef": mdl, "mdef_params": mp, "z": z, "cosmo_params": cp, "interval": where})
+        except Exception as e:
+            viol("dndm-conversion/interval-check-raises", f"interval conservation check failed: {type(e).__name__}: {e}")
         err = float(np.max(np.abs(n1 / n0 - 1)))
         if not err < 0.03:
             viol("dndm-conversion/number-not-conserved", f"{fit} converted from {meas} to {a.mdef} at z={z}, cosmo_params={cp}: n'(>m_new(m)) differs from n(>m) by up to {err:.3g} "
@@ -174,10 +209,13 @@ def run(ctx):
         # conversions
         nconv = 0
         defs = [md.SOMean(overdensity=200), md.SOMean(overdensity=500), md.SOCritical(overdensity=200), md.SOCritical(overdensity=500), md.SOVirial()]
-        for rep in range(4 if quick else 40):
+        # same-family pairs whose parameters differ only slightly (they share an integer part / a colossus-style name) come first
+        close_pairs = [(md.SOMean(overdensity=200), md.SOMean(overdensity=200.9)), (md.FOF(linking_length=0.2), md.FOF(linking_length=0.168)),
+                       (md.SOCritical(overdensity=177.65), md.SOCritical(overdensity=177)), (md.SOMean(overdensity=500.4), md.SOMean(overdensity=500))]
+        for rep in range(len(close_pairs) + (4 if quick else 40)):
             cosmo = Planck15 if rep % 2 == 0 else Planck15.clone(Om0=r.uniform(0.2, 0.4), H0=r.uniform(60, 78))
             z = r.choice([0.0, 1.0, 3.0])
-            a, b = r.sample(defs, 2)
+            a, b = close_pairs[rep] if rep < len(close_pairs) else r.sample(defs, 2)
             m = 10 ** np.array([r.uniform(9, 15.5) for _ in range(3)])
             c = np.array([r.uniform(2, 20) for _ in range(3)]) if r.random() < 0.5 else None
             nconv += 1
